@@ -1,0 +1,23 @@
+//go:build verif
+
+package trafficrouting
+
+import (
+	"github.com/openkruise/rollouts/pkg/trafficrouting"
+	"k8s.io/apimachinery/pkg/runtime"
+	"k8s.io/client-go/tools/record"
+	"sigs.k8s.io/controller-runtime/pkg/client"
+)
+
+// NewReconcilerForVerif builds a TrafficRoutingReconciler the way SetupWithManager does, without a manager.
+func NewReconcilerForVerif(c client.Client, scheme *runtime.Scheme, recorder record.EventRecorder) *TrafficRoutingReconciler {
+	return &TrafficRoutingReconciler{
+		Client:                c,
+		Scheme:                scheme,
+		Recorder:              recorder,
+		trafficRoutingManager: trafficrouting.NewTrafficRoutingManager(c),
+	}
+}
+
+// SetGracePeriodForVerif overrides the package default grace period (seconds).
+func SetGracePeriodForVerif(seconds int32) { defaultGracePeriodSeconds = seconds }
